@@ -464,7 +464,9 @@ func init() {
 					if strings.HasPrefix(sc.Name, "commit-then-park") || strings.HasPrefix(sc.Name, "two-readers") {
 						bound = 2
 					}
-					mc.Explore(&cc, r, "product", sc, mc.ExploreOpts{Bound: bound})
+					// MaxExecs: the largest schedule tree on the unchanged code has under 10^4 executions; a tree 50x that size is
+					// a runaway (e.g. a busy-wait loop under unbounded preemption) and is reported as not exhaustive
+					mc.Explore(&cc, r, "product", sc, mc.ExploreOpts{Bound: bound, MaxExecs: 500000})
 				}
 				mc.CountNontrivial(r)
 				r.Bounds = map[string]string{"product": fmt.Sprintf("%d profiles x %d writer stages x %d read entry points + %d converse scenarios (unbounded interleavings) + %d two-reader scenarios (pairs of %d entry points x 2 profiles against a parked writer, preemption bound 2)", len(profiles), len(stages), len(entries), len(converse()), len(twoReaders()), len(pairEntries))}
